@@ -28,12 +28,12 @@ type editCase struct {
 func genEditCase(t *rapid.T) editCase {
 	maxN := sz(8, 16)
 	g := genAnyGraph(t, min(maxN, 7))
-	if rapid.IntRange(0, 5).Draw(t, "large") == 0 {
+	if rapid.IntRange(0, 3).Draw(t, "large") == 0 {
 		// larger and denser graphs: neighbour lists beyond any small-size fast path (degree >= 17 needs n >= 18)
 		maxN = sz(28, 44)
 		n := rapid.IntRange(10, maxN-2).Draw(t, "ln")
 		g = oracle.New(n)
-		num := rapid.IntRange(3, 8).Draw(t, "ldens")
+		num := rapid.IntRange(1, 8).Draw(t, "ldens") // sparse to complete
 		for j := 0; j < n; j++ {
 			for i := 0; i < j; i++ {
 				if rapid.IntRange(0, 7).Draw(t, "le") < num {
@@ -267,6 +267,6 @@ func checkEditCase(c editCase, rec *Rec) error {
 
 func init() {
 	RegisterRapid("C05_edit_history",
-		"rapid: initial graph from the mixed generator (n <= 7; one case in six a dense random graph on 10..26 (thorough 42) vertices so that neighbour lists exceed 16 entries), produced by struct literal / NewDense+NewSparse / the decoders / AddVertex from the empty graph, optionally with garbage-filled spare capacity behind every slice; then 1..30 (thorough 120) ops over a pool of up to 6 graphs: AddVertex(neighbours in any order), RemoveVertex(any v), AddEdge/RemoveEdge(i,j incl. i=j, present/absent), Copy, InducedSubgraph(any injective V, with the identity list, full shuffles and all-but-one lists over-represented). Each slot holds a DenseGraph, a SparseGraph and an adjacency-matrix model; after EVERY op EVERY slot is compared (N, M, IsEdge both ways, ascending Neighbours, Degrees), so shared state between a copy/induced subgraph and its source shows up when either is edited. Non-trivial: an edit after removing a non-last vertex of degree >= 1, or an edit of a graph that has been copied / taken an induced subgraph of (or of such a result).",
+		"rapid: initial graph from the mixed generator (n <= 7; one case in four a random graph of any density on 10..26 (thorough 42) vertices so that neighbour lists exceed 16 entries), produced by struct literal / NewDense+NewSparse / the decoders / AddVertex from the empty graph, optionally with garbage-filled spare capacity behind every slice; then 1..30 (thorough 120) ops over a pool of up to 6 graphs: AddVertex(neighbours in any order), RemoveVertex(any v), AddEdge/RemoveEdge(i,j incl. i=j, present/absent), Copy, InducedSubgraph(any injective V, with the identity list, full shuffles and all-but-one lists over-represented). Each slot holds a DenseGraph, a SparseGraph and an adjacency-matrix model; after EVERY op EVERY slot is compared (N, M, IsEdge both ways, ascending Neighbours, Degrees), so shared state between a copy/induced subgraph and its source shows up when either is edited. Non-trivial: an edit after removing a non-last vertex of degree >= 1, or an edit of a graph that has been copied / taken an induced subgraph of (or of such a result).",
 		Budget{Checks: 2500, Shards: 1}, Budget{Checks: 100000, Shards: 16}, genEditCase, checkEditCase)
 }
